@@ -54,6 +54,7 @@ func (e *Engine) verifyFunction(name string, spec *FuncSpec) (fc *FnCtx, err err
 		fr.ghostRes[ghostKey(g)] = t
 		fr.ghostIdx[ghostKey(g)] = g.ResIdx
 		fc.ghostNames[g.Name] = t
+		fc.ghostKeys[g.Name] = ghostKey(g)
 	}
 	entry := st.clone()
 	fc.entry = entry
